@@ -351,8 +351,9 @@ class ThreadingApplication(Application):
             answer = self.generate_answer(
                 message,
                 result_code=constants.E_RESULT_CODE_DIAMETER_UNABLE_TO_COMPLY)
-        if answer is not None:
-            self._resp_msg_queue.put(answer)
+        # a `None` result is queued as well, so that the thread slot taken for
+        # this message is given back
+        self._resp_msg_queue.put(answer)
 
     def handle_request(self, message: Message) -> Message | None:
         """Called by diameter node every time a request message is received.
